@@ -231,6 +231,43 @@ partial def runAll : P Unit := do
         out ("COMET" ++ pairs set)
         runBlocks s set false
     runAll
+  | ["ANTE", h, dg, fl, ce, n] =>
+    let cnt ← pNat n
+    let mut msgs : List Msg := []
+    for _ in [0:cnt] do
+      msgs := msgs ++ [← pMsg]
+    let height ← pInt h
+    let cfg : LimiterCfg := { doGenTx := dg == "1", floor := ← pInt fl, ceil := ← pInt ce }
+    let f := theEnv.ante
+    let cls (o : Option Err) : String := match o with | none => "pass" | some e => errStr e
+    out s!"AR {cls (Ante.stakingDecorator f height msgs)} {cls (Ante.withdrawDecorator f height msgs)} {cls (Ante.commissionDecorator f cfg height msgs)}"
+    runAll
+  | ["VC", a, b, c] =>
+    let r := App.validateCommission (← pInt a) (← pInt b) (← pInt c)
+    let cls := match r with | none => "pass" | some e => errStr e
+    out s!"VCR {cls} {cls}"
+    runAll
+  | ["VD", l0, l1, l2, l3, l4] =>
+    let ok := App.lensOk [← pNat l0, ← pNat l1, ← pNat l2, ← pNat l3, ← pNat l4] App.maxLens
+    let cls := if ok then "pass" else errStr Err.invalidRequest
+    out s!"VDR {cls} {cls}"
+    runAll
+  | ["VS", t, p] =>
+    let r := App.validateSetPower (← pTarget t) (← pNat p)
+    out s!"VSR {match r with | none => "pass" | some e => errStr e}"
+    runAll
+  | ["VP", ub, mv, me, hi, dn, mc] =>
+    let ok := App.paramsValid { unbond := ← pInt ub, maxVals := ← pInt mv, maxEntries := ← pInt me, hist := ← pInt hi, denom := ← pNat dn, minComm := ← pInt mc }
+    out s!"VPR {if ok then "ok" else "err"}"
+    runAll
+  | ["VM", op, key, l0, l1, l2, l3, l4, r, mr, mc, ms] =>
+    let k ← pInt key
+    let c : CreateArgs := { op := ← pNat op, key := if k < 0 then none else some k.toNat,
+                            lens := [← pNat l0, ← pNat l1, ← pNat l2, ← pNat l3, ← pNat l4],
+                            rate := ← pInt r, maxRate := ← pInt mr, maxChange := ← pInt mc, minSelf := ← pInt ms }
+    let cls := match App.validateCreate c with | none => "pass" | some e => errStr e
+    out s!"VMR {cls} {cls}"
+    runAll
   | l => throw s!"unexpected top-level line {l}"
 
 def main : IO UInt32 := do
